@@ -67,6 +67,8 @@ Inductive cop :=
 | XValset (id v : Z)
 | XEvidence (id : Z) (w : cwin)
 | XRemove (id : Z)
+| XRemoveMany (ids : list Z)             (* pruning by the consensus end-blocker *)
+| XSkip (k : Z)                          (* k ids of the shared counter went to other queues *)
 | XCompass (present : bool)
 | XAttest (id : Z) (spawned : option (list (Z * Z * list (Z * val))))
 | XEndBlock (spawned : list (Z * option (list (Z * Z * list (Z * val))))).
@@ -97,6 +99,15 @@ Fixpoint env_lookup (l : list (Z * option (list (Z * Z * list (Z * val))))) (id 
 
 Definition set_compass (b : bool) (w : wstate) : wstate := (fst w, b).
 
+(** an id handed to another queue: the turnstone queue never shows it *)
+Fixpoint skip_ids (s : cstate) (k : nat) : cstate :=
+  match k with
+  | O => s
+  | Datatypes.S j =>
+    let id := next_id _ _ _ _ _ _ s in
+    skip_ids (c_step (c_step s (OpEnqueue _ _ _ _ _ (mk_body (3, 0, [])))) (OpRemove _ _ _ _ _ id)) j
+  end.
+
 Definition apply_cop (s : cstate) (o : cop) : cstate * Z :=
   match o with
   | XEnqueue b => (c_step s (OpEnqueue _ _ _ _ _ (mk_body b)), 0)
@@ -106,6 +117,8 @@ Definition apply_cop (s : cstate) (o : cop) : cstate * Z :=
   | XValset id v => (c_step s (OpSetValset _ _ _ _ _ id v), 0)
   | XEvidence id w => (c_step s (OpEvidence _ _ _ _ _ id (win_of w)), 0)
   | XRemove id => (c_step s (OpRemove _ _ _ _ _ id), 0)
+  | XRemoveMany l => (fold_left (fun s' id => c_step s' (OpRemove _ _ _ _ _ id)) l s, 0)
+  | XSkip k => (skip_ids s (Z.to_nat k), 0)
   | XCompass b => (c_step s (OpWorld _ _ _ _ _ (set_compass b)), 0)
   | XAttest id e => let '(s', r) := c_attest s id (env_of e) in (s', res_class r)
   | XEndBlock l => let '(s', ok) := c_endblock s (env_lookup l) in (s', if ok then 0 else 4)
